@@ -8,11 +8,12 @@
 (*     CoreSetX(A, E, b2, e2) = CoreSet(A*R + E, b2*R + e2, "wu")               *)
 (*     PeelCoreSetX(A, E, b2, e2) = CoreSetX(A, E, b2, e2).                      *)
 EXTENDS KCore
-CONSTANTS N, AMax, EMax
+CONSTANTS N, AMax, EMax, TinyOnly     \* TinyOnly: also connections that are a perturbation only
 VARIABLES f, b2, e2, ph
 UPairs == {p \in (1..N) \X (1..N) : p[1] < p[2]}
 (* non-negative two-level weights: 0, a tiny one, a base weight 1..AMax +- tiny  *)
-Cells == {<<0, 0>>} \cup {<<0, e>> : e \in 1..EMax} \cup {<<a, e>> : a \in 1..AMax, e \in (-EMax)..EMax}
+Cells == {<<0, 0>>} \cup (IF TinyOnly THEN {<<0, e>> : e \in 1..EMax} ELSE {})
+            \cup {<<a, e>> : a \in 1..AMax, e \in (-EMax)..EMax}
 R == 2 * (2 * EMax * (N - 1)) + 2 * EMax + 1 + 1
 AOf(g) == Mat(N, LAMBDA i, j : IF i < j THEN g[<<i, j>>][1] ELSE IF j < i THEN g[<<j, i>>][1] ELSE 0)
 EOf(g) == Mat(N, LAMBDA i, j : IF i < j THEN g[<<i, j>>][2] ELSE IF j < i THEN g[<<j, i>>][2] ELSE 0)
